@@ -530,6 +530,7 @@ func cmRequest(id, method, params string) cmember {
 
 type cliConfig struct {
 	unblock, onCancel, onNotify, onCallback bool
+	timeoutErr                              bool // transport failures report Timeout()/Temporary()
 }
 
 type cspec struct {
@@ -634,7 +635,7 @@ func causeOf(err error) string {
 		return "none"
 	case err == io.EOF:
 		return "eof"
-	case err == cErrOther:
+	case err == cErrOther || err == errTimeout:
 		return "other"
 	case channel.IsErrClosing(err):
 		return "closing"
@@ -935,6 +936,9 @@ func (r *cliRun) feedErr(kind string) {
 		err = cErrClosing
 	default:
 		err = cErrOther
+		if r.cfg.timeoutErr {
+			err = errTimeout
+		}
 	}
 	r.log.item("env\tfeed\terr\t%s", kind)
 	r.ch.feeds <- cfeed{nil, err}
@@ -1075,6 +1079,7 @@ func runCliScenario(t *testing.T, fam string, seed uint64, idx int, out *bufio.W
 		t.Fatalf("unknown family %q", fam)
 	}
 	cfg := cliConfig{unblock: g.chance(2, 3), onCancel: g.chance(2, 3), onNotify: g.chance(2, 3), onCallback: g.chance(2, 3)}
+	cfg.timeoutErr = idx%2 == 1
 	policy := "random"
 	tier := os.Getenv("VERIF_TIER")
 	if idx%3 == 0 {
